@@ -48,17 +48,7 @@ ASSUME = [
 # Defect candidates found by the directed API-surface probes and reported to the coordinator; each entry matches ONE
 # probe under exactly the configurations in which it fails on the pinned tree (anything else stays a VIOLATION).
 # Remove an entry when /repo is fixed or the finding is listed in known_findings.json.
-PENDING_FINDINGS = [
-    # quantity.hh:113,569 quantity_point.hh:109,268 — `static constexpr ... unit` has no namespace-scope definition:
-    # ODR-use (`const auto &u = q.unit;`, passing `q.unit` by reference) links under C++17/20, not under C++14
-    {"probe": "mini:odr-static-unit", "std": "c++14"},
-    # math.hh:191,197,203 — `constexpr auto copysign(...)` calls std::copysign: a constant expression using it is
-    # accepted by g++ (builtin) and rejected by clang++ under every standard
-    {"probe": "mini:constexpr-copysign", "compiler": "clang++-14"},
-    # quantity.hh:350 — the implicit conversion of a unitless Quantity to its Rep is a conversion function TEMPLATE;
-    # g++ does not consider it for built-in compound assignment (`i += q`), clang++ does
-    {"probe": "mini:compound-assign-unitless", "compiler": "g++"},
-]
+PENDING_FINDINGS = []      # findings live in /verif/known_findings.json (F22 fixed; F23, F24, F25 listed)
 
 
 def is_pending(v):
@@ -393,7 +383,7 @@ def explore_real(tier, rng, wd, drv, ex, ids, stats, violations):
     units, consts = unit_and_constant_names()
     others = [f for f in ex["files"] if not f.startswith("au/units/") and not f.startswith("au/constants/")] + \
              [f for f in ex["files"] if f.endswith("_fwd.hh")][:8]
-    n, n_compile = (60, 6) if tier == "quick" else (400, 16)
+    n, n_compile = (60, 5) if tier == "quick" else (400, 16)
     sels = gen_selections(rng, units, consts, others, n, n_compile)
     jobs = [{"units": s["units"], "constants": s["constants"], "mains": s["mains"], "io": s["io"],
              "text": s["id"] < n_compile} for s in sels]
